@@ -55,7 +55,7 @@ for pid in sorted(os.listdir(root)):
             if key in fr:
                 first = fr[key]; break
         meta = dict(
-            property=pid, seed=n, round=1 if n in 'ab' else 2,
+            property=pid, seed=n, round={'a':1,'b':1,'c':2,'d':2,'e':3,'f':3}.get(n,0),
             title=title, files_changed=files, functions_touched=funcs,
             breaks='see notes.md (clause of the property, why it looks innocent)',
             needs_to_manifest=needs or 'see notes.md',
